@@ -186,7 +186,19 @@ func genGeometry(t *rapid.T, c *PCfg, maxBuf int, eqShrink bool) {
 	if b == 0 {
 		b = maxBuf // only to scale the other draws
 	}
-	switch weighted(t, "winKind", 4, 1, 1, 2, 2, 3, 1, 2, 1) {
+	switch weighted(t, "winKind", 4, 1, 1, 2, 2, 3, 1, 2, 1, 2) {
+	case 9:
+		// "no window limit": the largest values Verify accepts (2^32-8 in
+		// general, MaxInt32 for GSAP) and their neighbourhood. The window is
+		// independent of the buffer, nothing of that size is allocated.
+		top := 1<<32 - 8
+		if c.Kind == "GSAP" {
+			top = 1<<31 - 1
+		}
+		c.WindowSize = top - rapid.SampledFrom([]int{0, 0, 1, 7, 8, 100, b, b + 1, 2 * b, 1 << 16, 1<<31 - 9}).Draw(t, "winHuge")
+		if c.WindowSize < 1 {
+			c.WindowSize = top
+		}
 	case 0:
 		c.WindowSize = rapid.IntRange(1, maxInt(b, 1)).Draw(t, "win")
 	case 1:
